@@ -24,42 +24,24 @@ func init() {
 func ruleC10R1(w *World, r *Report) {
 	const rule = "C10/R1"
 	r.rule(rule, "every function that allocates ast.BadNode: NodePos = current token's Pos before any advance; the skip loop appends Token.Clone() and records Token.End exactly once, before its single advance, on every cycle; the literal gets those values; nothing is fetched after the loop", 2)
-	tk := w.TKAI()
 	rec := w.Recording()
+	tk := w.TKAI()
 	n := 0
 	isPrim := func(in ssa.Instruction) bool {
 		c, ok := in.(*ssa.Call)
 		return ok && c.Call.StaticCallee() == tk.prim
 	}
-	consumes := func(in ssa.Instruction) bool {
-		ci, ok := in.(ssa.CallInstruction)
-		if !ok {
-			return false
-		}
-		if _, isDefer := in.(*ssa.Defer); isDefer {
-			return false
-		}
-		for _, c := range w.Callees(ci) {
-			if c == tk.prim || (fnPkgPath(c) == modRoot && tk.fetches(c) && !rec[c]) {
-				return true
-			}
-		}
-		return false
-	}
-	for _, fn := range w.ModFns {
-		if fnPkgPath(fn) != modRoot {
-			continue
-		}
-		for _, b := range fn.Blocks {
-			for _, in := range b.Instrs {
-				al, ok := in.(*ssa.Alloc)
-				if !ok || !isNamed(al.Type(), modRoot+"/ast", "BadNode") {
-					continue
-				}
+	consumes := w.c10Consumes()
+	sites := w.badNodeSites()
+	for _, cs := range sites {
+		fn, b := cs.fn, cs.at.Block()
+		{
+			{
+				al := cs.at
 				n++
 				construct := "BadNode capture in " + funcName(fn)
 				var problems []string
-				fields := allocFieldStores(al)
+				fields := cs.fields
 				// the rewind
 				var recCall ssa.Instruction
 				for _, bb := range fn.Blocks {
@@ -128,12 +110,20 @@ func ruleC10R1(w *World, r *Report) {
 						nClone, nEnd := 0, 0
 						var endLoad, appendVal, cloneVal ssa.Value
 						advanced := false
+						listHelper := false
 						for _, x := range ab.Instrs {
 							if consumes(x) {
 								if c, ok := x.(*ssa.Call); ok {
 									if cal := c.Call.StaticCallee(); cal != nil && w.cloneAndAdvance(cal, consumes) {
 										nClone++
 										cloneVal = c
+									}
+									// `tokens = p.skipToken(tokens)`: clones, appends to the list it is given, advances, returns the list
+									if cal := c.Call.StaticCallee(); cal != nil && w.appendCloneAndAdvance(cal, consumes) {
+										nClone++
+										cloneVal = nil
+										appendVal = c
+										listHelper = true
 									}
 								}
 								advanced = true
@@ -165,17 +155,20 @@ func ruleC10R1(w *World, r *Report) {
 						}
 						if nClone != 1 || appendVal == nil {
 							problems = append(problems, fmt.Sprintf("the recording block clones the current token %d times before the advance (want exactly one append of Token.Clone())", nClone))
-						} else if !appendsValue(appendVal.(*ssa.Call), cloneVal) {
+						} else if !listHelper && !appendsValue(appendVal.(*ssa.Call), cloneVal) {
 							problems = append(problems, "the clone of the current token is not what is appended to the list")
 						}
-						if nEnd != 1 {
+						if cs.endFromTokens {
+							// NodeEnd is computed by the constructor from the list itself (End of its last element, the start
+							// position when it is empty): it cannot disagree with Tokens
+						} else if nEnd != 1 {
 							problems = append(problems, fmt.Sprintf("the recording block reads the recorded token's End %d times (want exactly one)", nEnd))
 						}
 						// NodeEnd: phi of the initial Pos load and the End load
-						if endLoad != nil && !reachesThroughPhis(endLoad, fields["NodeEnd"]) {
+						if !cs.endFromTokens && endLoad != nil && !reachesThroughPhis(endLoad, fields["NodeEnd"]) {
 							problems = append(problems, "NodeEnd is not the End of the last recorded token")
 						}
-						if ne := fields["NodeEnd"]; ne != nil {
+						if ne := fields["NodeEnd"]; ne != nil && !cs.endFromTokens {
 							for _, o := range phiOrigins(ne) {
 								if endLoad != nil && o == endLoad {
 									continue // the End of the clone recorded in this cycle
@@ -227,6 +220,201 @@ func ruleC10R1(w *World, r *Report) {
 	if n < 1 {
 		r.errorf("expected four handlers allocating ast.BadNode, found %d", n)
 	}
+}
+
+// c10Consumes: the instruction fetches the next token (the primitive, or a module function that does and is not one of the
+// recording wrappers)
+func (w *World) c10Consumes() func(ssa.Instruction) bool {
+	tk := w.TKAI()
+	rec := w.Recording()
+	return func(in ssa.Instruction) bool {
+		ci, ok := in.(ssa.CallInstruction)
+		if !ok {
+			return false
+		}
+		if _, isDefer := in.(*ssa.Defer); isDefer {
+			return false
+		}
+		for _, c := range w.Callees(ci) {
+			if c == tk.prim || (fnPkgPath(c) == modRoot && tk.fetches(c) && !rec[c]) {
+				return true
+			}
+		}
+		return false
+	}
+}
+
+// the places where a Bad node is put together: a literal in a handler, or the call of a constructor
+// (newBadNode(pos, tokens)) whose literal takes its fields from the parameters
+type captureSite struct {
+	fn            *ssa.Function
+	at            ssa.Instruction
+	fields        map[string]ssa.Value
+	endFromTokens bool
+}
+
+func (w *World) badNodeSites() []captureSite {
+	var sites []captureSite
+	for _, fn := range w.ModFns {
+		if fnPkgPath(fn) != modRoot {
+			continue
+		}
+		for _, b := range fn.Blocks {
+			for _, in := range b.Instrs {
+				al, ok := in.(*ssa.Alloc)
+				if !ok || !isNamed(al.Type(), modRoot+"/ast", "BadNode") {
+					continue
+				}
+				if argFields, endFromTokens, isCtor := badNodeConstructor(fn, al); isCtor {
+					for _, site := range w.callersOf(fn) {
+						call, ok := site.(*ssa.Call)
+						if !ok || call.Parent() == nil {
+							continue
+						}
+						f := map[string]ssa.Value{}
+						for name, pi := range argFields {
+							if pi < len(call.Call.Args) {
+								f[name] = call.Call.Args[pi]
+							}
+						}
+						sites = append(sites, captureSite{call.Parent(), call, f, endFromTokens})
+					}
+					continue
+				}
+				sites = append(sites, captureSite{fn, al, allocFieldStores(al), false})
+			}
+		}
+	}
+	return sites
+}
+
+// badNodeConstructor: fn builds its one BadNode literal from its parameters: NodePos and Tokens are parameters, NodeEnd is
+// a parameter too or is computed from the token list (End of its last element under len > 0, else the start position).
+// Returns field name -> parameter index.
+func badNodeConstructor(fn *ssa.Function, al *ssa.Alloc) (map[string]int, bool, bool) {
+	if len(naturalLoops(fn)) > 0 {
+		return nil, false, false
+	}
+	paramIdx := func(v ssa.Value) int {
+		for {
+			switch x := v.(type) {
+			case *ssa.Convert:
+				v = x.X
+				continue
+			case *ssa.ChangeType:
+				v = x.X
+				continue
+			}
+			break
+		}
+		for i, p := range fn.Params {
+			if v == ssa.Value(p) {
+				return i
+			}
+		}
+		return -1
+	}
+	fs := allocFieldStores(al)
+	out := map[string]int{}
+	pi, ti := paramIdx(fs["NodePos"]), paramIdx(fs["Tokens"])
+	if fs["NodePos"] == nil || fs["Tokens"] == nil || pi < 0 || ti < 0 {
+		return nil, false, false
+	}
+	out["NodePos"], out["Tokens"] = pi, ti
+	ne := fs["NodeEnd"]
+	if ne == nil {
+		return nil, false, false
+	}
+	if ei := paramIdx(ne); ei >= 0 {
+		out["NodeEnd"] = ei
+		return out, false, true
+	}
+	// end := pos; if len(tokens) > 0 { end = tokens[len(tokens)-1].End }
+	okShape := true
+	sawLast := false
+	for _, o := range phiOrigins(ne) {
+		if paramIdx(o) == pi {
+			continue
+		}
+		ld, ok := isLoad(o)
+		if !ok {
+			okShape = false
+			break
+		}
+		fa, ok := ld.(*ssa.FieldAddr)
+		if !ok || fieldAddrName(fa) != "End" {
+			okShape = false
+			break
+		}
+		el, ok := isLoad(fa.X)
+		if !ok {
+			okShape = false
+			break
+		}
+		ia, ok := el.(*ssa.IndexAddr)
+		if !ok || paramIdx(ia.X) != ti || !isLenMinus(ia.Index, fn.Params[ti], 1) {
+			okShape = false
+			break
+		}
+		sawLast = true
+	}
+	if !okShape || !sawLast {
+		return nil, false, false
+	}
+	return out, true, true
+}
+
+// appendCloneAndAdvance: h(p, list) clones the current token, appends the clone to the list it is given, fetches the next
+// token exactly once after that, and returns the appended list.
+func (w *World) appendCloneAndAdvance(fn *ssa.Function, consumes func(ssa.Instruction) bool) bool {
+	if fn.Blocks == nil || len(naturalLoops(fn)) > 0 || len(fn.Params) != 2 {
+		return false
+	}
+	tk := w.TKAI()
+	var clone, app *ssa.Call
+	nAdv := 0
+	for _, b := range fn.Blocks {
+		for _, in := range b.Instrs {
+			if consumes(in) {
+				nAdv++
+				if app == nil {
+					return false
+				}
+				continue
+			}
+			c, ok := in.(*ssa.Call)
+			if !ok {
+				continue
+			}
+			if c.Call.StaticCallee() == tk.tokCl {
+				if cur, _ := tk.tokenSources(c.Call.Args[0]); cur {
+					if clone != nil || nAdv > 0 {
+						return false
+					}
+					clone = c
+				}
+			}
+			if bi, ok := c.Call.Value.(*ssa.Builtin); ok && bi.Name() == "append" {
+				if app != nil || clone == nil || c.Call.Args[0] != ssa.Value(fn.Params[1]) || !appendsValue(c, clone) {
+					return false
+				}
+				app = c
+			}
+		}
+	}
+	if clone == nil || app == nil || nAdv != 1 {
+		return false
+	}
+	n := 0
+	for _, b := range fn.Blocks {
+		if ret, ok := b.Instrs[len(b.Instrs)-1].(*ssa.Return); ok {
+			n++
+			if len(ret.Results) != 1 || ret.Results[0] != ssa.Value(app) {
+				return false
+			}
+		}
+	}
+	return n > 0
 }
 
 // cloneAndAdvance: a helper of the recovery loops that clones the current token, fetches the next one exactly once,
@@ -518,60 +706,55 @@ func ruleC10R3(w *World, r *Report) {
 	const rule = "C10/R3"
 	r.rule(rule, "every value that becomes an element of BadNode.Tokens is the result of Token.Clone(); the live token is never aliased into the AST", 2)
 	n := 0
-	for _, fn := range w.ModFns {
-		if fnPkgPath(fn) != modRoot {
+	consumes := w.c10Consumes()
+	for _, cs := range w.badNodeSites() {
+		fn := cs.fn
+		tv := cs.fields["Tokens"]
+		if tv == nil {
 			continue
 		}
-		for _, b := range fn.Blocks {
-			for _, in := range b.Instrs {
-				al, ok := in.(*ssa.Alloc)
-				if !ok || !isNamed(al.Type(), modRoot+"/ast", "BadNode") {
-					continue
-				}
-				tv := allocFieldStores(al)["Tokens"]
-				if tv == nil {
-					continue
-				}
-				n++
-				construct := "elements of BadNode.Tokens in " + funcName(fn)
-				bad := ""
-				for _, o := range phiOrigins(tv) {
-					if isNilConst(o) {
-						continue
-					}
-					call, ok := o.(*ssa.Call)
-					if !ok {
-						bad = "built from " + o.String()
-						continue
-					}
-					bi, ok := call.Call.Value.(*ssa.Builtin)
-					if !ok || bi.Name() != "append" {
-						bad = "built by " + call.String()
-						continue
-					}
-					// variadic elements
-					if sl, ok := call.Call.Args[1].(*ssa.Slice); ok {
-						if arr, ok := sl.X.(*ssa.Alloc); ok {
-							for _, u := range referrers(arr) {
-								if ia, ok := u.(*ssa.IndexAddr); ok {
-									for _, su := range referrers(ia) {
-										if st, ok := su.(*ssa.Store); ok && st.Addr == ssa.Value(ia) {
-											if !w.isCloneValue(st.Val, 0) {
-												bad = "an element is " + st.Val.String() + ", not a Token.Clone() result"
-											}
-										}
+		n++
+		construct := "elements of BadNode.Tokens in " + funcName(fn)
+		bad := ""
+		for _, o := range phiOrigins(tv) {
+			if isNilConst(o) {
+				continue
+			}
+			call, ok := o.(*ssa.Call)
+			if !ok {
+				bad = "built from " + o.String()
+				continue
+			}
+			if cal := call.Call.StaticCallee(); cal != nil && w.appendCloneAndAdvance(cal, consumes) {
+				// the list-returning record-and-advance helper appends a Token.Clone() result to the list it is given
+				continue
+			}
+			bi, ok := call.Call.Value.(*ssa.Builtin)
+			if !ok || bi.Name() != "append" {
+				bad = "built by " + call.String()
+				continue
+			}
+			// variadic elements
+			if sl, ok := call.Call.Args[1].(*ssa.Slice); ok {
+				if arr, ok := sl.X.(*ssa.Alloc); ok {
+					for _, u := range referrers(arr) {
+						if ia, ok := u.(*ssa.IndexAddr); ok {
+							for _, su := range referrers(ia) {
+								if st, ok := su.(*ssa.Store); ok && st.Addr == ssa.Value(ia) {
+									if !w.isCloneValue(st.Val, 0) {
+										bad = "an element is " + st.Val.String() + ", not a Token.Clone() result"
 									}
 								}
 							}
 						}
 					}
 				}
-				if bad != "" {
-					r.bad(rule, construct, w.pos(al.Pos()), bad+": the Bad node would alias the lexer's live token and change under the caller")
-				} else {
-					r.ok(rule, construct, w.pos(al.Pos()), "all elements are Token.Clone() results")
-				}
 			}
+		}
+		if bad != "" {
+			r.bad(rule, construct, w.pos(cs.at.Pos()), bad+": the Bad node would alias the lexer's live token and change under the caller")
+		} else {
+			r.ok(rule, construct, w.pos(cs.at.Pos()), "all elements are Token.Clone() results")
 		}
 	}
 	if n < 1 {
